@@ -83,7 +83,7 @@ def run(ck: Check):
             if rng.random() < 0.5:
                 q["filters"] = []
             reals.append(M.run_real(layer, q))
-            cases.append({"op": "c03", "models": M.lean_models(ms), "query": q, "tables": tables, "_layer": layer, "_ms": ms})
+            cases.append({"op": "c03", "models": M.lean_models(ms), "query": q, "tables": tables, "_layer": layer, "_ms": ms, "_meta": dict(M.GEN_META)})
     answers = Driver().run([{k: v for k, v in c.items() if not k.startswith("_")} for c in cases])
     stats = Counter()
     disagree = 0
@@ -150,10 +150,53 @@ def run(ck: Check):
         if a.get("path") == "joined":
             jr = [tuple(list(row[:nd]) + [row[nd + i] for i in order]) for row in jr]
         k2 = key or c02.classify({**c, "query": {**q, "metrics": [q["metrics"][0]]}})
+        if k2 == "F3-nonbase-metric-fanout" and "_preagg AS" in r["sql"]:
+            k2 = None      # F3 is about the single joined query; on the multi-fact path joint and single queries are built alike
         if not c01.bag_equal(jr, want):
             ck.fail_input("joint query differs from the outer union of the per-metric-model queries (a metric depends on its companions)",
                           {"models": c["models"], "tables": c["tables"], "query": q, "joint_rows": duck.show(r["rows"]), "union_of_single_queries": [[str(v) for v in x] for x in want[:12]], "sql": r["sql"]},
                           finding_key=k2 if k2 else None)
+    if (disagree or ck.broken) and not ck.failing:
+        # directed search: the mismatching (models, query) pairs on fresh tables (NULL keys, NULL time buckets, fan-out),
+        # joint result vs outer union of the per-metric-model queries on the real code
+        suspects = [c for c in cases if c.get("_mismatch")]
+        # the same shapes without query filters are inside the proved fragment (no F4/F4b class)
+        suspects = [c if not classify(c) else {**c, "query": {**c["query"], "filters": []}} for c in suspects]
+        for c in [c for c in suspects if not classify(c)][:10]:
+            q = c["query"]
+            mms = list(dict.fromkeys(x.split(".")[0] for x in q["metrics"]))
+            if len(mms) < 2:
+                continue
+            M.GEN_META.clear(); M.GEN_META.update(c["_meta"])
+            for _ in range(15):
+                tables = M.regen_tables(rng, c["_ms"], scale=rng.choice([1, 2]))
+                layer = M.build_layer(c["_ms"], tables)
+                r = M.run_real(layer, q)
+                if r["outcome"] != "ok":
+                    continue
+                parts, ok = [], True
+                for mn in mms:
+                    sub = dict(q, metrics=[x for x in q["metrics"] if x.split(".")[0] == mn])
+                    rr = M.run_real(layer, sub)
+                    if rr["outcome"] != "ok":
+                        ok = False
+                        break
+                    parts.append((c01.canon_rows(rr["rows"], [False] * len(rr["columns"])), len(sub["metrics"])))
+                if not ok or c02.classify({"models": c["models"], "tables": tables, "query": {**q, "metrics": [q["metrics"][0]]}}):
+                    continue
+                stats["search_cases"] += 1
+                nd = len(q["dims"])
+                want = outer_union(parts, nd)
+                jr = c01.canon_rows(r["rows"], [False] * len(r["columns"]))
+                if "_preagg AS" not in r["sql"]:
+                    order = [i for mn in mms for i, x in enumerate(q["metrics"]) if x.split(".")[0] == mn]
+                    jr = [tuple(list(row[:nd]) + [row[nd + i] for i in order]) for row in jr]
+                if not c01.bag_equal(jr, want):
+                    ck.fail_input("joint query differs from the outer union of the per-metric-model queries (found by directed search after a correspondence break)",
+                                  {"models": c["models"], "tables": tables, "query": q, "joint_rows": duck.show(r["rows"]), "union_of_single_queries": [[str(v) for v in x] for x in want[:12]], "sql": r["sql"]})
+                    break
+            if ck.failing:
+                break
     if disagree == 0:
         ck.obligation("correspondence C03: SQLGenerator vs Lean (decision, structural, behavioural)", True, f"{len(cases)} cases")
     ck.coverage.update({
